@@ -69,6 +69,16 @@ def eval_construct(case):
     tb = get_table(name, container)
     if case.get("rows") == "irregular":
         tb = thin(tb, container, case.get("seed", 0))
+    if case.get("units"):
+        # the same table in another unit system: compressibility and viscosity scaled by constants (c mu ends up ten
+        # decades smaller / larger) - positive properties all the same
+        fc, fm = {"small": (1.45e-7, 1e-3), "large": (6.9e3, 1e3)}[case["units"]]
+        tb = tb.copy() if container == "frame" else dict(tb)
+        if "compressibility" in tb and "viscosity" in tb:
+            tb["compressibility"] = np.asarray(tb["compressibility"], dtype=float) * fc
+            tb["viscosity"] = np.asarray(tb["viscosity"], dtype=float) * fm
+        if "alpha" in tb:
+            tb["alpha"] = np.asarray(tb["alpha"], dtype=float) / (fc * fm)
     if branch == "simple" or (branch == "long" and "alpha" in tb):
         keep = SIMPLE if branch == "simple" else None
         if keep and not all(k in tb for k in keep):
@@ -250,7 +260,7 @@ def eval_construct(case):
                                   f"{np.max(np.abs(a2 / want2 - 1)):.3g})", case=case))
             finally:
                 tb[col][...] = saved[col]
-    return {"violations": viol, "outcome": f"{branch}:{where}", "key": (name, container, branch, where, bool(case.get("both")))}
+    return {"violations": viol, "outcome": f"{branch}:{where}", "key": (name, container, branch, where, bool(case.get("both")), case.get("units"), case.get("rows"))}
 
 
 def eval_missing(case):
@@ -333,6 +343,9 @@ def cases(tier, seed):
         if t in ("T_ship_gas", "T_ship_oil", "S_zdip", "A_kink", "A_int"):  # non-uniform pressure grid, non-default frame index
             out.append({"kind": "construct", "table": t, "container": c, "branch": b, "where": w, "off": off,
                         "rows": "irregular", "seed": seed})
+    for t, c, b, w, u in itertools.product(["T_ship_gas", "T_ship_oil", "S_zdip", "A_kink"], ["frame", "dict"], ["long", "alpha", "simple"],
+                                           ["node", "mid"], ["small", "large"]):
+        out.append({"kind": "construct", "table": t, "container": c, "branch": b, "where": w, "off": off, "units": u})
     for t, c, w in itertools.product(["T_ship_gas", "S_zdip"], ["frame", "dict"], ["node", "mid", "last"]):
         out.append({"kind": "construct", "table": t, "container": c, "branch": "alpha", "where": w, "off": off, "both": True})
         out.append({"kind": "construct", "table": t, "container": c, "branch": "simple", "where": w, "off": off, "both": True})
